@@ -59,7 +59,9 @@ def traded_bucket_topped_up(s):
     bucket(s, "usr1", 1, [["ujunox", 400], ["uatom", 3]])
     buy(s, "usr1", 1, 1)
     s.do(E("usr0", {"k": "add_to_bucket", "id": 1}, [["ujunox", 2], ["uosmo", 9]]), "valid")
-    listing(s, "usr2", 2, [["uatom", 5]], G(n=[["ujunox", 400], ["uatom", 3], ["uosmo", 9]]))
+    nft_send(s, "usr0", COLL1, "1", {"k": "add_to_bucket_cw721", "id": 1})           # every top-up path keeps the pending fee
+    cw20_send(s, "usr0", CW20A, 55, {"k": "add_to_bucket_cw20", "id": 1})
+    listing(s, "usr2", 2, [["uatom", 5]], G(n=[["ujunox", 400], ["uatom", 3], ["uosmo", 9]], c=[[CW20A, 55]], f=[[COLL1, "1"]]))
     buy(s, "usr0", 2, 1, "reuse")
     adv(s, 604801)
     s.do(E("usr3", {"k": "fee_cycle"}), "valid")       # denomination switches between purchase and withdrawal
